@@ -300,6 +300,13 @@ pub fn run(ctx: &mut Ctx) {
                 go(ctx, Case { serialiser: ser.into(), status_index: 4, headers: hs(1), parts: vec![(t.to_string(), 0, b.clone())], corruption: String::new() });
             }
         }
+        // every content type in each position of 2 and 3 parts
+        for t1 in TYPES {
+            for t2 in TYPES {
+                go(ctx, Case { serialiser: ser.into(), status_index: 10, headers: hs(1), parts: vec![(t1.to_string(), 0, b"one".to_vec()), (t2.to_string(), 5, b"two".to_vec())], corruption: String::new() });
+                go(ctx, Case { serialiser: ser.into(), status_index: 10, headers: hs(0), parts: vec![(t2.to_string(), 0, b"a".to_vec()), (t1.to_string(), 5, b"".to_vec()), (t2.to_string(), 9, b"c\r\n".to_vec())], corruption: String::new() });
+            }
+        }
         // two parts
         for b1 in &bodies {
             let seconds: &Vec<Vec<u8>> = if thorough { &bodies } else { &subset };
